@@ -26,7 +26,8 @@ BOUNDS = ("(A) recording hooks: cell grid entry {move, move_absolute, rapid, rap
           "{move, move_absolute} x geometry (3 concrete (layer, nozzle, filament) triples); solver "
           "over pre-position, arguments, h in [0,1e6] and the previous E in [-1e6,1e6]. Checked: hypot arguments = XY "
           "displacement; E = area ratio * h (relative extrusion) or previous E + that (absolute). "
-          "Interpolated segments: tracer frame condition (every vertex is one move()).")
+          "Interpolated segments: tracer frame condition (every vertex is one move()) plus a recording "
+          "hook under the parametric() emission loop (two symbolic vertices).")
 ASSUMPTIONS = [
     "math.hypot is stubbed (contract: Euclidean norm); geometry triples are concrete so that the "
     "E formula stays linear for z3",
@@ -129,6 +130,43 @@ def _make_record(entry, rel, prepat, argpat, nhooks):
         if sgot is None or not num_eq(sgot, e_want):
             return V(f"{entry}-hook-parameters-not-remembered-by-state",
                      lambda: f"state.get_parameter('E')={sgot!r}, hook returned {e_want!r}; {ctx()}")
+        reached("linear")
+        return None
+    return h
+
+
+def _make_trace_hook(rel):
+    """Each interpolated segment is one linear move: the hook is called once per vertex with the
+    previous vertex as origin and the vertex as target (parametric() emission loop, stubbed curve)."""
+    def h(px: Finite, py: Finite, ax: Finite, ay: Finite, bx: Finite, by: Finite):
+        pos = (px, py, 1.0)
+        pre = mkpre(pos=pos, relative=rel)
+        g, rec = prepare(pre)
+        calls = []
+
+        def hook(origin, target, params, state):
+            calls.append((tuple(origin), tuple(target)))
+            params.update(E=len(calls) * 1.5)
+            return params
+
+        g.add_hook(hook)
+        verts = [(ax, ay, 2.0), (bx, by, -3.0)]
+        g.trace._filter_segments = lambda pts: pts
+        e = attempt(g.trace.parametric, lambda thetas: verts, 10.0)
+        if e is not None:
+            msg = f"{exc_name(e)}: {e}"
+            return V("trace-hook-unexpected-exception", msg)
+        if len(calls) != 2:
+            return V("trace-hook-not-called-once-per-segment", lambda: f"{calls!r}")
+        want = [(pos, verts[0]), (verts[0], verts[1])]
+        for (o, t), (wo, wt) in zip(calls, want):
+            for i in range(3):
+                if not num_eq(o[i], wo[i]) or not num_eq(t[i], wt[i]):
+                    return V("trace-hook-saw-a-wrong-segment",
+                             lambda: f"hook calls {calls!r}, expected {want!r}")
+        got = g.get_parameter("E")
+        if got is None or not num_eq(got, 3.0):
+            return V("trace-hook-parameters-not-remembered", lambda: f"E={got!r}")
         reached("linear")
         return None
     return h
@@ -238,6 +276,10 @@ def cells(tier):
                         out.append(Cell(name, _make_record(entry, rel, prepat, argpat, nhooks),
                                         budget_s=120 if quick else 600,
                                         entry="GCodeBuilder._prepare_move"))
+    for rel in (False, True):
+        out.append(Cell(f"record|trace-parametric|{'rel' if rel else 'abs'}", _make_trace_hook(rel),
+                        budget_s=120 if quick else 600, must_reach=("linear",),
+                        entry="PathTracer.parametric (emission) + hooks"))
     for entry in ("move", "move_absolute"):
         for rel in (False, True):
             for ext_rel in (False, True):
